@@ -8,10 +8,12 @@ package main
 import (
 	"context"
 	"fmt"
+	"math/rand"
 	"runtime"
 	"runtime/debug"
 	"sort"
 	"strings"
+	"sync"
 	"sync/atomic"
 	"time"
 
@@ -200,6 +202,167 @@ func occursAfterRecycling(nGround, nFresh int) (accepted int, ran int) {
 	return accepted, ran
 }
 
+// statesOfPrograms: the states a search hands to goals, for programs over every combinator (ExistO chains inside ConjO, DisjO, and
+// the condition / then / else positions of IfThenElseO, nested), must keep every variable they list alive for as long as they are
+// alive themselves.  Every variable (= its placeholder pointer) gets a finalizer when ExistO creates it and is held by the probe
+// while the search runs; a capture goal at the leaves keeps the state it is given and notes which variables that state lists
+// (CastVar).  After the search the probe lets go of the variables, the collector runs, and (a) no variable listed by a kept state
+// may have been finalized, (b) no freshly allocated constant may be classified as a variable by a kept state.
+type c05prog struct {
+	mu        sync.Mutex
+	alive     []*GT          // variables, held only while the search runs
+	ids       map[*GT]int    // (emptied with alive)
+	finalized map[int]bool   // ids whose placeholder was collected
+	kept      []*gomini.State
+	listed    [][]int        // per kept state: ids of the variables it lists
+	where     []string       // per kept state: position of the capture goal in the program
+	nvars     int
+	dups      int // ExistO handed out a variable that is already a variable of this search
+}
+
+func (p *c05prog) exist(body func(v *GT) gomini.Goal) gomini.Goal {
+	return gomini.ExistO(func(v *GT) gomini.Goal {
+		p.mu.Lock()
+		if _, dup := p.ids[v]; dup { // every variable is held by p.alive, so this is not a recycled address
+			p.dups++
+			p.mu.Unlock()
+			return body(v)
+		}
+		id := p.nvars
+		p.nvars++
+		p.alive = append(p.alive, v)
+		p.ids[v] = id
+		p.mu.Unlock()
+		runtime.SetFinalizer(v, func(*GT) { p.mu.Lock(); p.finalized[id] = true; p.mu.Unlock() })
+		return body(v)
+	})
+}
+
+// chain introduces k variables, one inside the other, binds every second one to the next and continues with g
+func (p *c05prog) chain(k int, g gomini.Goal) gomini.Goal {
+	if k == 0 {
+		return g
+	}
+	return p.exist(func(v *GT) gomini.Goal {
+		return p.exist(func(w *GT) gomini.Goal {
+			return gomini.ConjO(gomini.EqualO(v, &GT{A: w}), p.chain(k-1, g))
+		})
+	})
+}
+
+func (p *c05prog) capture(where string) gomini.Goal {
+	return func(ctx context.Context, s *gomini.State, ss gomini.Stream) {
+		p.mu.Lock()
+		if len(p.kept) < 60 {
+			var l []int
+			for _, v := range p.alive {
+				if _, isvar := s.CastVar(v); isvar {
+					l = append(l, p.ids[v])
+				}
+			}
+			p.kept = append(p.kept, s)
+			p.listed = append(p.listed, l)
+			p.where = append(p.where, where)
+		}
+		p.mu.Unlock()
+		ss.Write(ctx, s)
+	}
+}
+
+func (p *c05prog) gen(r *rand.Rand, depth int, path string) (gomini.Goal, string) {
+	if depth <= 0 {
+		return p.capture(path), "capture"
+	}
+	k := 1 + r.Intn(12)
+	switch r.Intn(7) {
+	case 6: // one goal VALUE used twice on one lineage: every run of an ExistO introduces a variable of its own
+		g, d := p.gen(r, depth-1, path+"/twice")
+		twice := p.chain(k, g)
+		return gomini.ConjO(twice, twice), fmt.Sprintf("(let g = (exist*%d %s) in (conj g g))", 2*k, d)
+	case 0:
+		g, d := p.gen(r, depth-1, path+"/exist")
+		return p.chain(k, g), fmt.Sprintf("(exist*%d %s)", 2*k, d)
+	case 1:
+		a, da := p.gen(r, depth-1, path+"/conj1")
+		b, db := p.gen(r, depth-1, path+"/conj2")
+		return gomini.ConjO(p.chain(k, a), b), fmt.Sprintf("(conj (exist*%d %s) %s)", 2*k, da, db)
+	case 2:
+		a, da := p.gen(r, depth-1, path+"/disj1")
+		b, db := p.gen(r, depth-1, path+"/disj2")
+		return gomini.DisjO(p.chain(k, a), b, p.chain(1, p.capture(path+"/disj3"))), fmt.Sprintf("(disj (exist*%d %s) %s (exist*2 capture))", 2*k, da, db)
+	case 3: // the condition introduces variables and succeeds (once or twice): then runs on the condition's states
+		t, dt := p.gen(r, depth-1, path+"/then")
+		e, de := p.gen(r, depth-1, path+"/else")
+		cond := p.chain(k, gomini.SuccessO)
+		if r.Intn(2) == 0 {
+			cond = gomini.DisjO(p.chain(k, gomini.SuccessO), p.chain(1+r.Intn(3), p.capture(path+"/cond")))
+		}
+		return gomini.IfThenElseO(cond, t, e), fmt.Sprintf("(ifte (exist*%d succeed ..) %s %s)", 2*k, dt, de)
+	case 4: // the condition introduces variables and fails: else runs on the outer state
+		t, dt := p.gen(r, depth-1, path+"/then")
+		e, de := p.gen(r, depth-1, path+"/else")
+		return gomini.IfThenElseO(p.chain(k, gomini.FailureO), t, e), fmt.Sprintf("(ifte (exist*%d fail) %s %s)", 2*k, dt, de)
+	default: // a conjunction after an if-then-else: the states that leave the then branch are used further
+		t, dt := p.gen(r, depth-1, path+"/then")
+		a, da := p.gen(r, depth-1, path+"/after")
+		return gomini.ConjO(gomini.IfThenElseO(p.chain(k, gomini.SuccessO), p.chain(1, t), gomini.FailureO), p.chain(1, a)),
+			fmt.Sprintf("(conj (ifte (exist*%d succeed) (exist*2 %s) fail) (exist*2 %s))", 2*k, dt, da)
+	}
+}
+
+// statesOfPrograms returns descriptions of what went wrong (at most a few), the number of kept states and of variables.
+func statesOfPrograms(r *rand.Rand, m int) (bad []string, nkept, nvars int, prog string) {
+	p := &c05prog{ids: map[*GT]int{}, finalized: map[int]bool{}}
+	g, d := p.gen(r, 2+r.Intn(2), "")
+	prog = d
+	ctx, cancel := context.WithTimeout(context.Background(), 30*time.Second)
+	gomini.RunTake(ctx, -1, gomini.NewState(), func(q *GT) gomini.Goal { return gomini.ConjO(g, gomini.EqualO(q, q)) })
+	cancel()
+	p.mu.Lock()
+	p.alive, p.ids = nil, nil
+	kept, listed, where := p.kept, p.listed, p.where
+	nkept, nvars = len(kept), p.nvars
+	if p.dups > 0 {
+		bad = append(bad, fmt.Sprintf("ExistO handed its body a variable that an earlier ExistO of the same search had already introduced (and that is still in use), %d times: a new variable is not new", p.dups))
+	}
+	p.mu.Unlock()
+	for i := 0; i < 3; i++ {
+		runtime.GC()
+		time.Sleep(2 * time.Millisecond)
+	}
+	p.mu.Lock()
+	for i, l := range listed {
+		n := 0
+		for _, id := range l {
+			if p.finalized[id] {
+				n++
+			}
+		}
+		if n > 0 && len(bad) < 3 {
+			bad = append(bad, fmt.Sprintf("the state handed to the goal at %s lists %d variables; %d of their placeholders were garbage collected while that state was still alive", where[i], len(l), n))
+		}
+	}
+	p.mu.Unlock()
+	mis := 0
+	keep := make([]*GT, 0, m)
+	for j := 0; j < m; j++ {
+		c := &GT{}
+		keep = append(keep, c)
+		for _, s := range kept {
+			if _, isvar := s.CastVar(c); isvar {
+				mis++
+				break
+			}
+		}
+	}
+	runtime.KeepAlive(keep)
+	runtime.KeepAlive(kept)
+	if mis > 0 {
+		bad = append(bad, fmt.Sprintf("%d of %d constants allocated after the search are classified as variables by a state the search produced", mis, m))
+	}
+	return bad, nkept, nvars, prog
+}
+
 func gcWrap(g gomini.Goal) gomini.Goal {
 	return func(ctx context.Context, s *gomini.State, ss gomini.Stream) {
 		runtime.GC()
@@ -217,7 +380,7 @@ func nodeList(xs []string) *concato.Node {
 
 func runC05(cfg *Config) *Report {
 	rep := newReport()
-	rep.Rule = "per case: k variables created with NewVar and dropped by the caller, GC forced; finalizer count while the state is alive; the same for a TREE of states (2..7 siblings derived from one parent with 1..40 variables, children and cousins), all kept alive; the occurs check on fresh terms after 6000 occurs-checked ground terms died and were collected (first two cases with the collector on); CastVar of m freshly allocated constants of the same type; ConcatO split searches on lists of 20..120 elements under GCPercent in {1,10,100,off} with and without a forced GC at every goal boundary; non-trivial = GC actually ran between creation and use (NumGC advanced); distinct by (k, m, list length, GC setting)"
+	rep.Rule = "per case: k variables created with NewVar and dropped by the caller, GC forced; finalizer count while the state is alive; the same for a TREE of states (2..7 siblings derived from one parent with 1..40 variables, children and cousins), all kept alive; the states handed to capture goals by generated programs over ExistO / ConjO / DisjO / IfThenElseO (variables introduced in every position, finalizers on their placeholders, constants allocated afterwards); the occurs check on fresh terms after 6000 occurs-checked ground terms died and were collected (first two cases with the collector on); CastVar of m freshly allocated constants of the same type; ConcatO split searches on lists of 20..120 elements under GCPercent in {1,10,100,off} with and without a forced GC at every goal boundary; non-trivial = GC actually ran between creation and use (NumGC advanced); distinct by (k, m, list length, GC setting)"
 	r := newRand(cfg.Seed)
 	defer debug.SetGCPercent(debug.SetGCPercent(100))
 	for i := 0; i < cfg.N; i++ {
@@ -277,6 +440,14 @@ func runC05(cfg *Config) *Report {
 		for _, named := range []bool{false, true} {
 			if bad := lineageIdentity(named, k0%5); bad != "" {
 				rep.violate(i, "variable-identity-across-lineages", desc, fmt.Sprintf("VarCreator=%v, parent with %d variables: %s", named, k0%5, bad))
+			}
+		}
+		// probe 1d: the states a search hands on, for programs over every combinator
+		{
+			bad, nk, nv, prog := statesOfPrograms(r, 20000)
+			obs += fmt.Sprintf(" program-states=%d vars=%d bad=%d", nk, nv, len(bad))
+			for _, b := range bad {
+				rep.violate(i, "state-of-a-search-does-not-keep-its-variables", desc, fmt.Sprintf("program %s: %s", prog, b))
 			}
 		}
 		// probe 2c (first cases of a run only): reification after address recycling
